@@ -567,7 +567,7 @@ static size_t calculateVoidPointerAlignedSize(size_t size)
 #ifndef CPPUTEST_DISABLE_MEM_CORRUPTION_CHECK
     return (sizeof(void*) - (size % sizeof(void*))) + size;
 #else
-   return size;
+   return size ? size : 1; /* never ask the platform for 0 bytes: realloc(p, 0) may free p */
 #endif
 }
 
